@@ -14,6 +14,10 @@ import GM.Proof.BlocksTNP5
 import GM.Proof.BlocksTNP8
 import GM.Proof.BlocksTNP12
 import GM.Proof.BlocksTNP13
+import GM.Proof.BlocksTNP26
+import GM.Proof.BlocksTNO5
+import GM.Proof.BlocksTNO10
+import GM.Proof.BlocksTNO17
 
 namespace GM.Props.ConvertNP
 open GM GM.Text GM.Spec GM.Blocks GM.LinkRef GM.Convert GM.Proof.InlinesReader GM.Proof.LinkRefFacts
@@ -201,6 +205,13 @@ theorem block_phase_no_go_panic_partial (src : Bytes) (hsrc : NoUnderline src) :
   GM.Blocks.T.runT_total_noBar src .pre (paragraphTransformers true) (paragraphTransformers_spec src)
     GM.Proof.LinkRefPres.paragraphTransformers_ok hsrc
 
+/-- the same with the list shape of the returned store exported (`KidsOK`: the children of a List are ListItems with offset ≥ 0,
+    a node whose parent is a List is a ListItem) — what the end-to-end C05 statement of package `e2e` consumes -/
+theorem block_phase_store_shape_partial (src : Bytes) (hsrc : NoUnderline src) :
+    (∃ s, blockPhase true src = .ok s ∧ NodesOK src s ∧ KidsOK s) ∨ blockPhase true src = .error .pre :=
+  GM.Blocks.T.runT_total_noBar_kids src .pre (paragraphTransformers true) (paragraphTransformers_spec src)
+    GM.Proof.LinkRefPres.paragraphTransformers_ok hsrc
+
 /-- **goal (c), partial, in the form that composes with "the guard never fires"** (package `wf0`): with the transformer behind
     the check `linesOKB` (`WFSegs` ∧ no blank line) whose outcome `e` is a PARAMETER, the run ends normally or with `e` — for
     every `e`. Since `e` is arbitrary, the check is the only source of an abnormal end: if `runT [guardE e] src` is the same
@@ -225,6 +236,209 @@ theorem monitors_never_fire_partial (e : Panic) (he : e ≠ .loop) (hp : e ≠ .
   rcases block_phase_total_modulo_guard_partial e he src hsrc with ⟨s, h', _⟩ | h'
   · rw [h] at h'; cases h'
   · rw [h] at h'; cases h'; exact hp rfl
+
+/-! ### (c)/(d) the block phase WITH paragraph transformers, whole runs — GENERAL: every byte string -/
+
+/-- **The block driver with paragraph transformers is total, for EVERY byte string and EVERY list of transformers that keep the
+    contract** (`PTsSpec src e pts`: a call on a Paragraph with a parent ends as `PTPost` says or answers the guard's outcome `e`;
+    `PTsOK pts`: no transformer exhausts fuel): `parseBlocks` with `transformParagraph` called where parser.go calls it —
+    `closeBlocks` (parser.go:904-907) and the RequireParagraph path of `openBlocks` (985-997: `Close` the paragraph, pop it,
+    transform it, `continuable = false; goto retry` when it has been transformed away) — returns a tree all of whose line segments
+    lie inside the source and whose Lists only have ListItem children, or a transformer's guard answered `e`. No Go panic of
+    parseBlocks / openBlocks / closeBlocks / the ten block parsers / the tree surgery (incl. `setextHeadingParser.Close` on a
+    transformed paragraph and the stale slice read `openedBlocks[lastIndex]` behind a transformed retry), no fuel exhaustion,
+    and NEITHER contract monitor of the retry loop (`retryStepT` (1)/(2)) fires. New invariants (GM.Proof.BlocksTNP20-25): parent
+    pointers and children lists agree (`TreeOK`), the last opened leaf is the last child of its parent (so the `else` of
+    `last == parent.LastChild()` is dead), `temporaryParagraphKey` is only constrained while a setext block is open. -/
+theorem block_phase_with_transformers_total (src : Bytes) (e : Panic) (pts : List PT) (hs : PTsSpec src e pts)
+    (hl : PTsOK pts) :
+    (∃ s, runT pts src = .ok s ∧ NodesOK src s ∧ KidsOK s) ∨ runT pts src = .error e :=
+  GM.Blocks.T.runT_total src e pts hs hl
+
+/-- **goal (c) — the block phase of the default pipeline never raises a Go panic, for EVERY byte string**:
+    `GM.Convert.blockPhase true src` (the link reference transformer behind its run-time check) returns a tree, or answers `pre` —
+    the outcome of the run-time check `WFSegs` and of contract monitor (3), the only abnormal ends left; every Go run-time panic of
+    the model (`index`, `slice`, `nil`, `assert`, `explicit`) and the fuel error are excluded. -/
+theorem block_phase_no_go_panic (src : Bytes) :
+    (∃ s, blockPhase true src = .ok s ∧ NodesOK src s ∧ KidsOK s) ∨ blockPhase true src = .error .pre :=
+  GM.Blocks.T.runT_total src .pre (paragraphTransformers true) (paragraphTransformers_spec src)
+    GM.Proof.LinkRefPres.paragraphTransformers_ok
+
+/-- **goal (c) in the form that composes with "the guard never fires"**: with the transformer behind the check `linesOKB`
+    (`WFSegs` ∧ no blank line) whose outcome `e` is a PARAMETER, every run ends normally or with `e` — for every `e` and every byte
+    string -/
+theorem block_phase_total_modulo_guard (e : Panic) (he : e ≠ .loop) (src : Bytes) :
+    (∃ s, runT [guardE e] src = .ok s ∧ NodesOK src s ∧ KidsOK s) ∨ runT [guardE e] src = .error e :=
+  GM.Blocks.T.runT_total src e [guardE e] (guardE_ptsSpec src e) (guardE_ptsOK e he)
+
+/-- **goal (d) — none of the model's contract monitors fires, for EVERY byte string**: with the guard's outcome chosen different
+    from `pre` (the code every monitor answers: retry monitors (1)/(2) of `retryStepT`, the progress monitor of the scan, the
+    stale-elements check of `removeLoop`, contract monitor (3) of `finishLines`), no run ends in `pre` -/
+theorem monitors_never_fire (e : Panic) (he : e ≠ .loop) (hp : e ≠ .pre) (src : Bytes) :
+    runT [guardE e] src ≠ .error .pre := by
+  intro h
+  rcases block_phase_total_modulo_guard e he src with ⟨s, h', _⟩ | h'
+  · rw [h] at h'; cases h'
+  · rw [h] at h'; cases h'; exact hp rfl
+
+/-! ### "the guard never fires": the lines handed to the transformer are `WFSegs` and none is blank -/
+
+/-- **the run-time check in front of the transformer never fires** — on every source without a setext underline: the block phase
+    with the guarded transformer IS the block phase with the bare `Transform`, whatever the guard would answer. Invariant (wf0's
+    `Inv` carried through the driver with transformers, GM.Proof.BlocksTNO1-5): the lines of every non-raw block increase, every
+    segment is non-empty, every line of a Paragraph holds a non-space byte; a transformer call (`PTPost`) only drops a prefix of the
+    lines, so all of it survives. -/
+theorem guard_never_fires_no_underline (src : Bytes) (h : NoUnderline src) (e : Panic) :
+    runT [guardE e] src = runT [transform] src :=
+  GM.Blocks.TO.guard_never_fires_noBar src h e
+
+/-- … hence **the block phase with the bare transformer ends normally** on such sources: no guard, no monitor, no panic -/
+theorem transform_run_total_no_underline (src : Bytes) (h : NoUnderline src) :
+    ∃ s, runT [transform] src = .ok s ∧ NodesOK src s :=
+  GM.Blocks.TO.runT_transform_total_noBar src h
+
+/-- … and **C01 for the block phase of the default pipeline, unconditional on such sources**: `blockPhase true src` returns a tree;
+    the run-time check is an observer (`blockPhase true = blockPhase false`) -/
+theorem block_phase_total_no_underline (src : Bytes) (h : NoUnderline src) :
+    ∃ s, blockPhase true src = .ok s ∧ NodesOK src s :=
+  GM.Blocks.TO.blockPhase_total_noBar src h
+
+theorem block_phase_guard_is_observer_no_underline (src : Bytes) (h : NoUnderline src) :
+    blockPhase true src = blockPhase false src :=
+  GM.Blocks.TO.blockPhase_guard_irrelevant_noBar src h
+
+/-- the C05(c) facts for the store the block phase WITH the transformer returns (such sources): the lines of every non-raw block
+    increase, segments are non-empty without ForceNewline, `WFSegs` when there are lines; every line of a Paragraph holds a non-space
+    byte -/
+theorem transform_run_lines_wellformed_no_underline (src : Bytes) (h : NoUnderline src) (s : St)
+    (hr : runT [transform] src = .ok s) :
+    (∀ n ∈ s.nodes, GM.Proof.BlocksWF0.isRaw n.kind = false → OrdFrom 0 n.lines ∧ (∀ t ∈ n.lines, t.start < t.stop ∧ t.forceNewline = false) ∧
+      (n.lines ≠ [] → WFSegs src n.lines)) ∧
+    (∀ n ∈ s.nodes, n.kind = .paragraph → ∀ t ∈ n.lines, NonBlankSeg src t) :=
+  GM.Blocks.TO.runT_transform_wfsegs_noBar src h s hr
+
+/-! ### "the guard never fires" and C01 for the block phase — GENERAL: every byte string -/
+
+/-- **The run-time check in front of the transformer never fires, for EVERY byte string**: the block phase with the guarded
+    transformer (`guardE e`: check `WFSegs` ∧ no blank line, outcome `e`) IS the block phase with the bare `Transform`, whatever
+    `e`. Invariant carried through the whole driver with transformers, RequireParagraph path included (GM.Proof.BlocksTNO6-10,
+    wf0's `Inv` re-done next to the no-panic walk): the lines of every non-raw block increase, every segment is non-empty, every
+    line of a Paragraph holds a non-space byte; `Transform` only drops a prefix of the lines (`PTPost`); the setext heading takes
+    the lines of a paragraph that still has some. -/
+theorem guard_never_fires (src : Bytes) (e : Panic) : runT [guardE e] src = runT [transform] src :=
+  GM.Blocks.TO.guard_never_fires src e
+
+/-- **C01, block phase of the default pipeline, for EVERY byte string: `GM.Convert.blockPhase true src` returns a tree** — no Go
+    run-time panic, no fuel exhaustion, no contract monitor, and the run-time check `WFSegs` of `guardedTransform` does not fire —
+    all of whose line segments lie inside the source and whose Lists only have ListItem children. -/
+theorem block_phase_total (src : Bytes) : ∃ s, blockPhase true src = .ok s ∧ NodesOK src s ∧ KidsOK s := by
+  obtain ⟨s, hs, _⟩ := GM.Blocks.TO.blockPhase_total src
+  rcases block_phase_no_go_panic src with h | h
+  · exact h
+  · rw [hs] at h; cases h
+
+/-- the run-time check of the composition is an observer: with and without it the block phase is the same function -/
+theorem block_phase_guard_is_observer (src : Bytes) : blockPhase true src = blockPhase false src :=
+  GM.Blocks.TO.blockPhase_guard_irrelevant src
+
+/-- the block phase with the bare transformer (`blockPhase false`) returns a tree for every byte string -/
+theorem transform_run_total (src : Bytes) : ∃ s, runT [transform] src = .ok s ∧ NodesOK src s :=
+  GM.Blocks.TO.runT_transform_total src
+
+/-- **C05(c) for the store the block phase WITH the transformer returns, every byte string**: the lines of every non-raw block
+    increase, segments are non-empty without ForceNewline, `WFSegs` when there are lines; every line of a Paragraph holds a
+    non-space byte (wf0's `inline_lines_wellformed` for `run`, now for `runT`) -/
+theorem transform_run_lines_wellformed (src : Bytes) (s : St) (hr : runT [transform] src = .ok s) :
+    (∀ n ∈ s.nodes, GM.Proof.BlocksWF0.isRaw n.kind = false → OrdFrom 0 n.lines ∧
+        (∀ t ∈ n.lines, t.start < t.stop ∧ t.forceNewline = false) ∧ (n.lines ≠ [] → WFSegs src n.lines)) ∧
+    (∀ n ∈ s.nodes, n.kind = .paragraph → ∀ t ∈ n.lines, NonBlankSeg src t) :=
+  GM.Blocks.TO.runT_transform_wfsegs src s hr
+
+/-- … for `blockPhase true` itself -/
+theorem block_phase_lines_wellformed (src : Bytes) (s : St) (hr : blockPhase true src = .ok s) :
+    (∀ n ∈ s.nodes, GM.Proof.BlocksWF0.isRaw n.kind = false → OrdFrom 0 n.lines ∧
+        (∀ t ∈ n.lines, t.start < t.stop ∧ t.forceNewline = false) ∧ (n.lines ≠ [] → WFSegs src n.lines)) ∧
+    (∀ n ∈ s.nodes, n.kind = .paragraph → ∀ t ∈ n.lines, NonBlankSeg src t) := by
+  rw [block_phase_guard_is_observer] at hr
+  exact transform_run_lines_wellformed src s (by simpa [blockPhase, paragraphTransformers] using hr)
+
+/-! ### the close discipline for the driver WITH transformers: padding 0 on every attached non-raw block -/
+
+/-- **Every non-raw block of the store `blockPhase true` returns has padding 0 on all its lines — unless it is a PARENTLESS
+    Heading** (wf0's close discipline `nonraw_lines_padding_zero`, carried through the driver with transformers,
+    GM.Proof.BlocksTNO11-17). The exception is real: see `abandoned_heading_keeps_padding`. -/
+theorem block_phase_lines_closed (src : Bytes) (s : St) (h : blockPhase true src = .ok s) :
+    ∀ i, GM.Proof.BlocksWF0.isRaw (nd s i).kind = false →
+      (∀ t ∈ (nd s i).lines, t.padding = 0) ∨ ((nd s i).kind = .heading ∧ (nd s i).parent = none) :=
+  GM.Blocks.TO.blockPhase_closed src s h
+
+/-- the tree-walk form (what `walkBlock` / the inline phase visit): every entry of a child list has that parent and, when it is
+    not raw, padding 0 on all its lines -/
+theorem block_phase_child_lines_padding_zero (src : Bytes) (s : St) (h : blockPhase true src = .ok s) (p c : Nat)
+    (hc : c ∈ (nd s p).children) :
+    (nd s c).parent = some p ∧
+      (GM.Proof.BlocksWF0.isRaw (nd s c).kind = false → ∀ t ∈ (nd s c).lines, t.padding = 0) :=
+  GM.Blocks.TO.blockPhase_child_closed src s h p c hc
+
+/-- the conjunction package `e2e` composes with (`GM.Props.ConvertE2ENT.convert_total_of_block_phase_theorems`): children of any
+    node are padding-free when not raw, and the Document node has no lines -/
+theorem block_phase_lines_padding_zero (src : Bytes) (s : St) (h : blockPhase true src = .ok s) :
+    (∀ p c, c ∈ (s.nodes.getD p default).children → GM.Proof.BlocksWF0.isRaw (s.nodes.getD c default).kind = false →
+        ∀ t ∈ (s.nodes.getD c default).lines, t.padding = 0) ∧ (s.nodes.getD 0 default).lines = [] :=
+  GM.Blocks.TO.blockPhase_pad_facts src s h
+
+/-- Document, Blockquote, List, ListItem and ThematicBreak nodes have no lines; node 0 is the Document; the open-block stack is
+    empty at the end; parent pointers and child lists agree (`TreeOK`) -/
+theorem block_phase_container_nodes_have_no_lines (src : Bytes) (s : St) (h : blockPhase true src = .ok s) :
+    ∀ i, noLinesKind (nd s i).kind = true → (nd s i).lines = [] :=
+  GM.Blocks.TO.blockPhase_no_lines src s h
+
+theorem block_phase_root_is_document (src : Bytes) (s : St) (h : blockPhase true src = .ok s) :
+    (nd s 0).kind = .document ∧ 0 < s.nodes.length :=
+  GM.Blocks.TO.blockPhase_root src s h
+
+theorem block_phase_stack_empty_at_end (src : Bytes) (s : St) (h : blockPhase true src = .ok s) : s.pc.opened = [] :=
+  GM.Blocks.TO.blockPhase_opened_nil src s h
+
+theorem block_phase_tree_consistent (src : Bytes) (s : St) (h : blockPhase true src = .ok s) : TreeOK s :=
+  GM.Blocks.TO.blockPhase_tree src s h
+
+/-- **C05(c) order clause for the store `blockPhase true` returns, EVERY node, raw kinds included** (CodeBlock / FencedCodeBlock /
+    HTMLBlock: wf0's `PadL` / `RawC` machinery of `BlocksOrdRaw` carried through the driver with transformers): the line segments
+    of every node increase -/
+theorem block_phase_lines_ordered (src : Bytes) (s : St) (h : blockPhase true src = .ok s) :
+    ∀ n ∈ s.nodes, OrdFrom 0 n.lines :=
+  GM.Blocks.TO.blockPhase_ordered_all src s h
+
+theorem block_phase_raw_lines_ordered (src : Bytes) (s : St) (h : blockPhase true src = .ok s) :
+    ∀ n ∈ s.nodes, GM.Proof.BlocksWF0.isRaw n.kind = true → OrdFrom 0 n.lines :=
+  GM.Blocks.TO.blockPhase_ordered_raw src s h
+
+/-- **"padding 0 on every non-raw node of the store" is FALSE for the driver with transformers** (kernel-evaluated witness):
+    in `> [a]: /u⏎>⇥===⏎` setextHeadingParser.Open builds a Heading on the tab-padded underline (segment 12..16, padding 2), the
+    paragraph is transformed away, `continuable = false; goto retry` — the Heading is abandoned: it stays in the store, parentless,
+    with its padded line (Go: garbage; never visited by `walkBlock`). -/
+theorem abandoned_heading_keeps_padding :
+    ∃ s, blockPhase true [62, 32, 91, 97, 93, 58, 32, 47, 117, 10, 62, 9, 61, 61, 61, 10] = .ok s ∧
+      (nd s 3).kind = .heading ∧ (nd s 3).parent = none ∧ (nd s 3).lines.map (·.padding) = [2] := by
+  cases h : blockPhase true [62, 32, 91, 97, 93, 58, 32, 47, 117, 10, 62, 9, 61, 61, 61, 10] with
+  | error e => exact absurd h (by
+      have := block_phase_total [62, 32, 91, 97, 93, 58, 32, 47, 117, 10, 62, 9, 61, 61, 61, 10]
+      obtain ⟨s, hs, _⟩ := this
+      rw [hs]; intro hh; cases hh)
+  | ok s =>
+    refine ⟨s, rfl, ?_⟩
+    have e : (blockPhase true [62, 32, 91, 97, 93, 58, 32, 47, 117, 10, 62, 9, 61, 61, 61, 10]).toOption.map
+        (fun s => ((nd s 3).kind == .heading, (nd s 3).parent, (nd s 3).lines.map (·.padding))) = some (true, none, [2]) := by
+      decide +kernel
+    rw [h] at e
+    simp only [Except.toOption, Option.map_some, Option.some.injEq, Prod.mk.injEq, beq_iff_eq] at e
+    exact e
+
+/-- tests on literals (kernel-evaluated): `a⏎[b]: /u⏎===⏎` — RequireParagraph path, the paragraph keeps a line (KEEP), setext
+    heading; `[a]: /u⏎===⏎x⏎` — the paragraph is transformed away (GONE → `continuable = false; goto retry`) -/
+example : (blockPhase true [97, 10, 91, 98, 93, 58, 32, 47, 117, 10, 61, 61, 61, 10]).toOption.isSome = true := by decide +kernel
+example : (blockPhase true [91, 97, 93, 58, 32, 47, 117, 10, 61, 61, 61, 10, 120, 10]).toOption.isSome = true := by decide +kernel
 
 /-- how the two results compose (no hypothesis on the source here): if the guard's outcome does not influence the run — what
     "the guard never fires" gives — then a run that ends "normally or with `e`" for every `e` ends normally -/
